@@ -38,13 +38,36 @@ func globalNormalise(c *Ctx) {
 	// ./...; sort so that the root package and ansi/log come before the widgets)
 	sort.SliceStable(shorts, func(i, j int) bool { return pkgRank(shorts[i]) < pkgRank(shorts[j]) })
 	before := len(c.Obs)
-	c15NormaliseOpt(c, shorts, refFuncNames, false)
-	if len(c.Obs) > before {
-		return
+	failed := false
+	func() {
+		defer func() {
+			if r := recover(); r != nil {
+				failed = true
+			}
+		}()
+		c15NormaliseOpt(c, shorts, refFuncNames, false)
+	}()
+	if failed || len(c.Obs) > before {
+		// The inliner could not produce a program that type-checks (or gave up): the syntax trees may be half
+		// rewritten, so the program is loaded again and analysed as it is written. The rules then see the helpers
+		// as calls; whatever they cannot judge they report themselves.
+		for _, o := range c.Obs[before:] {
+			c.counts[o.Rule]--
+		}
+		c.Obs = c.Obs[:before]
+		if p, err := Load(c.P.Repo, c.P.GOOS, loadNeedSSA); err == nil {
+			c.P = p
+			c.info("global normalisation abandoned (the inlined program did not type-check); the original text is analysed")
+		} else {
+			c.undecided("LOAD", "normalise", 0, "helper inlining failed and the program could not be reloaded: %v", err)
+			return
+		}
 	}
 	// the program changed: rebuild the side tables that were derived from the old syntax trees
 	installAccessorResolver(c.P)
 }
+
+var loadNeedSSA bool
 
 func pkgRank(sh string) int {
 	switch sh {
